@@ -310,7 +310,7 @@ func GenRecord(rt *rapid.T, o Options) *Record {
 		r.SerialIFD0 = optStr(rt, "serialB", 1, 1, 32)
 		r.SerialExif = r.SerialIFD0
 	}
-	if r.Artist == nil {
+	if r.Artist == nil || Chance(rt, "owner.too", 0.3) { // (with both present the Artist tag is the artist, whichever value comes first in the file)
 		r.OwnerName = optStr(rt, "owner", p, 1, 40)
 	}
 	r.PixelX, r.PixelY = dim("pixelx"), dim("pixely")
@@ -419,7 +419,7 @@ func GenRecord(rt *rapid.T, o Options) *Record {
 			}
 		}
 		if Chance(rt, "gpstime?", 0.7) {
-			den := func(l string) uint32 { return rapid.SampledFrom([]uint32{1, 1, 1, 10, 100}).Draw(rt, "gpstime"+l) }
+			den := func(l string) uint32 { return rapid.SampledFrom([]uint32{1, 1, 1, 10, 100, 1000, 1000000, 10000000}).Draw(rt, "gpstime"+l) }
 			d0, d1, d2 := den(".d0"), den(".d1"), den(".d2")
 			v := [3][2]uint32{
 				{rapid.Uint32Range(0, 23).Draw(rt, "gpstime.h") * d0, d0},
